@@ -312,6 +312,7 @@ def run(ctx, tier, seed, shard, nshards):
     if shard == 0:
         structural(ctx)
         constructor_cases(ctx)
+        plain_attribute_cases(ctx)
         for case in multi_base_matrix():
             D.run_one(ctx, case, judge, exclude=exclude, nontrivial=nontrivial)
         ctx.count("multi_base_matrix_cells", 7 * 64)
@@ -416,6 +417,83 @@ def constructor_cases(ctx, only=None):
                         break
 
 
+def plain_attribute_cases(ctx, only=None):
+    """A base class that merely has a non-callable ATTRIBUTE of the name (``handler = None``, a constant, a default
+    value) provides no function to combine with: a sub-class defining a method of that name starts its own contract - its
+    precondition is not a weakening of anything."""
+    import icontract
+
+    def a_method(self):
+        return 0
+
+    for value_name, value in (("None", None), ("int", 5), ("str", "text"), ("tuple", ()), ("dict", {}), ("method", a_method)):
+        for kind in ("method", "static", "class", "property", "contracted property"):
+            if only and only != [value_name, kind]:
+                continue
+            if value_name == "method" and not kind.endswith("property"):
+                continue
+            if kind.endswith("property"):
+                # a property defined over a base attribute that is no property (a class-level default such as `name = None`)
+                seen = []
+
+                def getter(self):
+                    seen.append("get")
+                    return 7
+
+                def post(result):
+                    seen.append("post")
+                    return result == 7
+
+                g = icontract.ensure(post)(getter) if kind.startswith("contracted") else getter
+                label = "base attribute p = %s, sub-class defines p as a %s" % (value_name, kind)
+                try:
+                    Base = type(icontract.DBC)("Base", (icontract.DBC,), {"p": value})
+                    Sub = type(icontract.DBC)("Sub", (Base,), {"p": property(g)})
+                    got = (Sub().p, list(seen))
+                except BaseException as e:  # noqa
+                    got = ("definition failed", type(e).__name__, str(e)[:140])
+                want = (7, ["get", "post"] if kind.startswith("contracted") else ["get"])
+                ctx.case(["plain-attribute", value_name, kind], True, sample={"directed": label, "outcome": str(got)[:120]})
+                ctx.count("directed:plain-attribute-cases")
+                if got != want:
+                    ctx.fail("plain-attribute|%s" % kind, {"plain_attribute_case": [value_name, kind]},
+                             "%s: expected %r, got %r" % (label, want, got))
+                continue
+            log = []
+
+            def pre(x):
+                log.append("pre")
+                return x > 0
+
+            def body(*a):
+                log.append("body")
+                return a[-1]
+
+            f = icontract.require(pre)((lambda self, x: body(self, x)) if kind == "method" else (lambda x: body(x)) if kind == "static"
+                                       else (lambda cls, x: body(cls, x)))
+            member = f if kind == "method" else staticmethod(f) if kind == "static" else classmethod(f)
+            label = "base attribute m = %s, sub-class defines m as a %s with a precondition" % (value_name, kind)
+            try:
+                Base = type(icontract.DBC)("Base", (icontract.DBC,), {"m": value})
+                Sub = type(icontract.DBC)("Sub", (Base,), {"m": member})
+                outs = []
+                for arg in (1, -1):
+                    del log[:]
+                    try:
+                        outs.append((("ret", Sub().m(arg)), list(log)))
+                    except icontract.ViolationError:
+                        outs.append((("violation",), list(log)))
+                got = outs
+            except BaseException as e:  # noqa
+                got = ("definition failed", type(e).__name__, str(e)[:140])
+            want = [(("ret", 1), ["pre", "body"]), (("violation",), ["pre"])]
+            ctx.case(["plain-attribute", value_name, kind], True, sample={"directed": label, "outcome": str(got)[:120]})
+            ctx.count("directed:plain-attribute-cases")
+            if got != want:
+                ctx.fail("plain-attribute|%s" % kind, {"plain_attribute_case": [value_name, kind]},
+                         "%s: expected %r, got %r" % (label, want, got))
+
+
 def structural(ctx):
     """Inherited members that are not overridden are the provider's very function object, with its lists."""
     import icontract
@@ -463,6 +541,11 @@ def structural(ctx):
 
 
 def replay(ctx, case):
+    if case.get("plain_attribute_case"):
+        before = ctx.evaluations
+        plain_attribute_cases(ctx, only=case["plain_attribute_case"])
+        ctx.evaluations = before + 1
+        return
     if case.get("constructor_case"):
         before = ctx.evaluations
         constructor_cases(ctx, only=case["constructor_case"])
